@@ -839,3 +839,5 @@ META = {
     "function's own try/with/finally makes them observable (DESIGN Appendix A).",
     "more": 'Also decided: the descriptor handed to os.close is read inside the same locked block that clears the field (no check-then-act between concurrent closers). The overlay mapping a stage receives is created for that stage (module-level objects included). Whoever replaced sys.stdout / sys.stderr stores the saved stream back on every path on which something was installed (no \'only if I am still the installed stream\' test). The stage classes wrap the descriptors they were given without owning them (closefd=False, no os.dup). A redirection of a process-wide stream entered on worker threads must count its users under a lock (known finding: ProcProxyThread.run saves and restores per thread).',
 }
+
+META["more"] += " The liveness predicate in the condition of the polling loop walks every started stage on every path and answers 'nobody runs' only after the whole walk. Every way out of the ending step lets every finished stage put back the signal handlers it swapped in, newest first (defect repaired: a non-last alias stage kept its SIGINT handler installed)."
